@@ -73,6 +73,8 @@ func main() {
 		}
 		_, viol := c08Site(s)
 		fmt.Println(viol)
+	case "c04child":
+		c04Child()
 	default:
 		os.Exit(2)
 	}
